@@ -67,6 +67,24 @@ func NewOutDef() *OutDef { return &OutDef{B: 7} }
 // goverter:context ctxValue
 func WithCtx(i int, ctxValue *Ctx) string { return "" }
 
+// custom functions of map ... | FUNC: their second parameter is a context only by arg:context:regex
+func MapWithCtx(a int, ctxValue *Ctx) string  { return "" }
+func MapWithCtx2(a int, ctxValue *Ctx) string { return "" }
+
+type InCtxF struct{ A int }
+type OutCtxF struct{ A string }
+type InCtxF2 struct{ A int }
+type OutCtxF2 struct{ A string }
+
+// default functions whose only parameter is a context by arg:context:regex
+func NewWithCtx(ctxValue *Ctx) *OutCtxD   { return &OutCtxD{} }
+func NewWithCtx2(ctxValue *Ctx) *OutCtxD2 { return &OutCtxD2{} }
+
+type InCtxD struct{ A int }
+type OutCtxD struct{ A int }
+type InCtxD2 struct{ A int }
+type OutCtxD2 struct{ A int }
+
 // second shapes for sibling methods
 type InMissing2 struct{ A int }
 type OutMissing2 struct {
